@@ -193,7 +193,7 @@ prop(
     technique="runtime monitoring: layout model over builder-call sequences, independent re-reader over concatenations, split-sink equivalence",
     design_ref="DESIGN.md §3 C05",
     engine="pure",
-    rule="2 versions x 11 status codes x every sequence of <= 3 (quick) / <= 4 (thorough) builder calls over a concrete alphabet of 18 "
+    rule="2 versions x 11 status codes x every sequence of <= 3 (quick) / <= 5 (thorough) builder calls over a concrete alphabet of 18 "
          "calls (6 body shapes incl. empty, CRLFCRLF, a fake response, 2 KiB; both content types; deprecation; encoding; 2 server "
          "strings; 3 allow lists; 3 allow_method), plus random sequences of length <= 5 incl. a 64 KiB body; random concatenations "
          "of 2-8 responses re-read by M3; sinks accepting 1/2/7/1000/all bytes per call with EINTR injected. evaluations = responses "
@@ -201,7 +201,7 @@ prop(
     assumptions=["the default Server string and default Content-Type are not pinned by the property: until set explicitly the observed value is accepted (any CR/LF-free server string, either media type)",
                  "set_content_length is outside the property's alphabet and is not called"],
     exhaustive={"quick": "all builder-call sequences of length <= 3 over the 18-call alphabet, for 2 versions x 11 codes",
-                "thorough": "all builder-call sequences of length <= 4 over the 18-call alphabet, for 2 versions x 11 codes"},
+                "thorough": "all builder-call sequences of length <= 5 over the 18-call alphabet, for 2 versions x 11 codes (44M responses)"},
     floors={"any": {"responses_with_body_set": 1000, "responses_without_content_length": 100, "concatenations_reread": 500,
                     "responses_recovered_exactly": 2000, "split_sink_writes": 5000}},
 )
@@ -234,12 +234,12 @@ prop(
     rule="All byte strings of length <= 5 over 19 symbols (letters of the tokens, their case flips, SP, NUL, 0xC3) through "
          "Method::try_from (and length <= 3 through Version/MediaType); every single-byte substitution (256 values), insertion and "
          "deletion of every canonical token; whitespace variants of media types; round trips; 11 status codes; every URI of "
-         "length <= 7 (quick) / <= 9 (thorough) symbols over {h,t,p,:,/,a,.,%,e-acute} through Request::try_from(..).uri()."
+         "length <= 7 (quick) / <= 10 (thorough) symbols over {h,t,p,:,/,a,.,%,e-acute} through Request::try_from(..).uri()."
          "get_abs_path(), plus a systematic scheme x authority x path family. evaluations = inputs judged; distinct_nontrivial = "
          "distinct inputs with a non-trivial expected answer (token accepted / non-empty absolute path).",
     assumptions=["media types are matched modulo Unicode whitespace as in str::trim"],
     exhaustive={"quick": "19-symbol strings up to length 5; URIs up to 7 symbols over 9 symbols; all single-byte edits of the 7 canonical tokens",
-                "thorough": "19-symbol strings up to length 5; URIs up to 9 symbols over 9 symbols (435M); all single-byte edits of the 7 canonical tokens"},
+                "thorough": "19-symbol strings up to length 5; URIs up to 10 symbols over 9 symbols (3.9G); all single-byte edits of the 7 canonical tokens"},
     floors={"any": {"method_strings_enumerated": 2000000, "token_edits": 20000, "tokens_accepted": 100, "uris_with_nonempty_abs_path": 100000,
                     "uris_absolute_form_with_path": 100, "status_codes": 11, "round_trips": 7}},
 )
@@ -393,10 +393,16 @@ prop(
 # ---- thorough-tier tool stages for the descriptor properties (optional: skipped with a note if the tool cannot run)
 _FD_TOOL_STAGES = [
     {"flavor": "native", "shards": 16, "scale": 100},
-    {"flavor": "strace", "binary_flavor": "native", "needs_tool": "strace", "shards": 4, "scale": 4, "optional": True, "timeout": 1800,
-     "wrapper": ["strace", "-f", "-qq", "-o", "{log}", "-e", "trace=close,recvmsg,accept4"], "post": "strace_fd_lifecycle"},
-    {"flavor": "valgrind", "binary_flavor": "native", "needs_tool": "valgrind", "shards": 2, "scale": 1, "optional": True, "timeout": 1800,
+    {"flavor": "strace", "binary_flavor": "native", "needs_tool": "strace", "shards": 4, "scale": 5, "tier_override": "quick", "optional": True, "timeout": 900,
+     "wrapper": ["strace", "-f", "--seccomp-bpf", "-qq", "-o", "{log}", "-e", "trace=close,recvmsg,accept4"], "post": "strace_fd_lifecycle"},
+    {"flavor": "valgrind", "binary_flavor": "native", "needs_tool": "valgrind", "shards": 4, "scale": 2, "tier_override": "quick", "optional": True, "timeout": 900,
      "wrapper": ["valgrind", "--track-fds=yes", "--error-exitcode=0", "--log-file={log}"], "post": "valgrind_track_fds"},
 ]
 PROPS["C12"]["stages"] = {"thorough": _FD_TOOL_STAGES}
 PROPS["C10"]["stages"] = {"thorough": _FD_TOOL_STAGES}
+for _p in ("C10", "C12"):
+    PROPS[_p]["floors"] = {"quick": PROPS[_p]["floors"]["any"],
+                           "thorough": dict(PROPS[_p]["floors"]["any"], **{"strace:close_calls_observed": 500, "valgrind:exit_descriptor_reports_checked": 2})}
+    PROPS[_p]["rule"] += (" Thorough adds two tool stages on a reduced workload: strace (every close() of the process must succeed; a close failing "
+                          "with EBADF is a second close) and valgrind --track-fds=yes (no socket, eventfd or /dev/null descriptor open at exit; no memcheck error).")
+
